@@ -53,10 +53,18 @@ static void receiver(void *arg)
 static void reset(int d, int s, int m, int r)
 {
 	depth = d; ns = s; mp = m; rt = r;
-	free(store);
-	free(mq);
-	store = calloc(depth, MSGLEN);
-	mq = calloc(1, sizeof(*mq));
+	/* warm restart: every other reset with an unchanged geometry re-initialises the SAME descriptor over the SAME memory */
+	static unsigned warm;
+	static int pd = -1, pm = -1;
+	int same = store && mq && pd == depth && pm == MSGLEN && (warm++ & 1);
+	pd = depth; pm = MSGLEN;
+	if (!same) {
+		free(store);
+		free(mq);
+		store = calloc(depth, MSGLEN);
+		mq = calloc(1, sizeof(*mq));
+	} else
+		memset(store, 0, (size_t)depth * MSGLEN);
 	vrt_reset();
 	vrt_clear_regions();
 	static unsigned nresets;
